@@ -60,6 +60,72 @@ def _sccs(n, succ):
     return out
 
 
+def _natural_loops(n, succ, entry=0):
+    """natural loops from back edges (u -> h with h dominating u); loops sharing a header are merged.  -> [(header, body set)]"""
+    pred = [[] for _ in range(n)]
+    for u in range(n):
+        for v in succ[u]:
+            pred[v].append(u)
+    # reverse post-order
+    seen = [False] * n
+    order = []
+    st = [(entry, 0)]
+    seen[entry] = True
+    while st:
+        v, i = st.pop()
+        if i < len(succ[v]):
+            st.append((v, i + 1))
+            w = succ[v][i]
+            if not seen[w]:
+                seen[w] = True
+                st.append((w, 0))
+        else:
+            order.append(v)
+    rpo = order[::-1]
+    idx = {v: i for i, v in enumerate(rpo)}
+    idom = {entry: entry}
+    changed = True
+    while changed:
+        changed = False
+        for v in rpo[1:]:
+            ps = [p for p in pred[v] if p in idom]
+            if not ps:
+                continue
+            new = ps[0]
+            for p in ps[1:]:
+                a, b2 = p, new
+                while a != b2:
+                    while idx[a] > idx[b2]:
+                        a = idom[a]
+                    while idx[b2] > idx[a]:
+                        b2 = idom[b2]
+                new = a
+            if idom.get(v) != new:
+                idom[v] = new
+                changed = True
+
+    def dominates(h, u):
+        while True:
+            if u == h:
+                return True
+            if u not in idom or idom[u] == u:
+                return False
+            u = idom[u]
+    loops = {}
+    for u in rpo:
+        for h in succ[u]:
+            if h in idom and dominates(h, u):
+                body = loops.setdefault(h, {h})
+                work = [u]
+                while work:
+                    x = work.pop()
+                    if x in body:
+                        continue
+                    body.add(x)
+                    work.extend(p for p in pred[x] if p in idom)
+    return sorted(loops.items(), key=lambda t: len(t[1]))
+
+
 def _op_locals(op):
     if op is None:
         return []
@@ -121,9 +187,7 @@ def scan_body(b):
     for a in range(1, b.argc + 1):
         def_blocks.setdefault(a, set()).add(-1)
     accs, viol = [], []
-    for comp in _sccs(n, succ):
-        if len(comp) == 1 and comp[0] not in succ[comp[0]]:
-            continue
+    for _h, comp in _natural_loops(n, succ):
         inl = set(comp)
         deps = {}
         defs = {}      # local -> list of (kind, info) definitions inside the loop
@@ -220,11 +284,7 @@ def scan_body(b):
 def _loops(b):
     n = len(b.blocks)
     succ = [list(b.succ[i]) for i in range(n)]
-    out = []
-    for comp in _sccs(n, succ):
-        if len(comp) == 1 and comp[0] not in succ[comp[0]]:
-            continue
-        out.append(set(comp))
+    out = [set(body) for _h, body in _natural_loops(n, succ)]
     return succ, out
 
 
